@@ -19,7 +19,7 @@ func init() {
 	register(&Driver{
 		ID:        "C14",
 		Technique: "stateless model checking of the real App.Close under a controlled cooperative scheduler (typed source instrumentation of sync and go statements): all goroutine interleavings for <=2 closers, iterative preemption bounding above; per-schedule oracle on call counters / finished flags at the instant Close returns, deadlock detection, and the race detector (hand-offs invisible to tsan) as an additional per-schedule oracle",
-		Rule:      "configurations = n in {0..3} closers x every subset returning an error x body length {0,1,2} scheduling points x {no slow closer, closer i blocks until every other closer has been invoked}; n in {4,5,6} x {none, all, alternating} failing; driver = (&app.App{CloserComponents: ...}).Close() and the closers wired by one real start; all interleavings for n<=2, preemption bound 2 (thorough 3) for n=3, 1 for n>=4; non-trivial = n >= 2",
+		Rule:      "configurations = n in {0..3} closers x every subset returning an error x body length {0,1,2} scheduling points x {no slow closer, closer i blocks until every other closer has been invoked}; n in {4,5,6} x {none, all, alternating} failing; driver = (&app.App{CloserComponents: ...}).Close() and the closers wired by one real start; all interleavings for n<=2, preemption bound 2 (thorough 3) for n=3, 1 for n>=4; non-trivial = n >= 2. Families added in later rounds (look-ups inside Init, retries after an abandoned attempt, user extension points at every Order, several containers, odd names / types / values) are listed per part in this file and described in MANIFEST.json (level_claimed.text) and DESIGN §7",
 		Assumptions: []string{
 			"scheduling points are the synchronisation operations of the repository code (WaitGroup, Mutex, sync.Map, go statements) plus the closers' own yield points; plain memory accesses between them are covered by the race detector, not by interleaving",
 			"weak-memory behaviours below tsan's happens-before model are not covered",
